@@ -641,11 +641,11 @@ func suiteC09(cfg Config, res *Result) {
 		refExec(tree, &cenv{vars: vars}, &cstate{cycles: map[int]int{}, changed: map[int][]cv{}, chText: map[int]*string{}}, &sb)
 		pc := ProgCase{Src: src, Ctx: &ct, Label: "c09"}
 		cases = append(cases, pc)
-		wants[pc.Req()] = sb.String()
+		wants[pc.Key()] = sb.String()
 	}
 	runProgCases(cfg, res, cases, "c09", func(c ProgCase, o ImplOutcome) bool { return strings.Contains(c.Src, "{% for") },
 		func(c ProgCase, o ImplOutcome) *Finding {
-			want := wants[c.Req()]
+			want := wants[c.Key()]
 			if o.Class != "ok" || o.Out != want {
 				return &Finding{Kind: "oracle", Proj: "reference", Sig: "c09-reference", Case: c.String(), Impl: o.Canon() + " " + o.Msg, Model: "reference interpreter: ok " + hxb(want)}
 			}
